@@ -456,16 +456,19 @@ func (x *Exec) applyContract(st *State, fr *Frame, con *Contract, key string, na
 		x.coverRole = ""
 	}
 	if fr != nil {
-		if fr.lastCall == nil {
-			fr.lastCall = map[string]callRec{}
-		}
-		fr.lastCall[shortCallName(key)] = callRec{args: args, results: results}
-		if fr.depth == 0 {
-			if st.topCalls == nil {
-				st.topCalls = map[string]callRec{}
+		// recorded for the calling function and for every function it is inlined into (helpers and closures
+		// of the function under analysis are executed in place; their calls count as its own)
+		rec := callRec{args: args, results: results}
+		for _, f := range st.frames {
+			if f.lastCall == nil {
+				f.lastCall = map[string]callRec{}
 			}
-			st.topCalls[shortCallName(key)] = callRec{args: args, results: results}
+			f.lastCall[shortCallName(key)] = rec
 		}
+		if st.topCalls == nil {
+			st.topCalls = map[string]callRec{}
+		}
+		st.topCalls[shortCallName(key)] = rec
 	}
 	return Outcome{st: st, results: results}
 }
@@ -765,6 +768,16 @@ func (x *Exec) sigOf(key, from string) *types.Signature {
 			}
 		}
 		return l[0].Signature
+	}
+	// a package-level function known to the type checker only (no body: go:linkname, assembly)
+	if i := strings.LastIndex(key, "."); i > 0 {
+		if tp, ok := x.ld.types[key[:i]]; ok {
+			if fo, ok := tp.Scope().Lookup(key[i+1:]).(*types.Func); ok {
+				if sig, ok := fo.Type().(*types.Signature); ok {
+					return sig
+				}
+			}
+		}
 	}
 	// interface method pkg.Iface.Method
 	parts := strings.Split(key, ".")
